@@ -22,6 +22,7 @@ from pyphysim.simulations.results import Result, SimulationResults
 import pyphysim.simulations.results as RESMOD
 
 ID = "C07"
+CASE_TIMEOUT = 900        # one big case = ~80 forked simulations, ~60 s idle, several x under load
 LEVEL = "fault_enumeration"
 RULE = ("for a configuration (grid of 1-4 variations, rep_max below / at / "
         "above the 500-repetition save period or small, pickle or json final "
